@@ -3,5 +3,5 @@
 From Coq Require Import List ZArith Extraction ExtrOcamlBasic.
 From Kenlm Require Import C17.PCQueueOps Gen.PCQueueProg C17.PCQueueModel C17.PoolModel C17.ChainModel.
 Extraction Language OCaml.
-Extraction "extracted/c17_model.ml" init_st step run replay enabled finished consumed_by returned_by stored_by produce_prog consume_prog
+Extraction "extracted/c17_model.ml" init_st step run replay enabled finished interrupt quiesce consumed_by returned_by stored_by produce_prog consume_prog
   pool_init pool_step pool_step_f pool_finished chain_init chain_step sink_seen stream_records Z.of_nat.
